@@ -141,6 +141,10 @@ def lines_leg(ctx, parent, corr_broken):
                 # the model (always the F47b shape) disagrees line by line, and a FIN without an own line falls through to
                 # the VIOLATION below (no readability hypothesis is in force for a tree that is not the accepted one)
                 row["verdict"] = "not the accepted shape of sealTornTail (%s)" % ("fatal exit" if died else "no fatal exit")
+                if died:
+                    corr_broken.append("lines scenario %s: nsq_to_file exited (os.Exit(1) in updateFile) on an existing file it may write "
+                                       "but not read (mode 0222) - the behaviour F47b = /repo 73f7348 repaired; fins=%r tree=%s"
+                                       % (r["case"], fins, r["tree"]))
             else:
                 if r["exits"] != "0" or (nonempty and "log-WARNING" not in notes and not r["case"].startswith("gen-")):
                     corr_broken.append("lines scenario %s on the F47b shape of sealTornTail: expected a WARN and a normal run, got exits=%s notes=%s"
